@@ -1,0 +1,160 @@
+//! Verification shim, compiled only with `--cfg orx_concurrent_iter_verif`.
+//!
+//! Drop-in replacements for the two std atomic types used by the crate. Every operation is reported
+//! to a registered pair of callbacks (before / after) together with the address of the atomic, the
+//! kind of operation, the memory ordering passed by the caller, the argument and the result.
+//! With no callbacks registered the types behave exactly like the std atomics they wrap.
+use std::sync::atomic as std_atomic;
+pub use std_atomic::Ordering;
+
+/// Kind of atomic operation.
+#[derive(Debug, Clone, Copy, PartialEq, Eq)]
+pub enum Kind {
+    /// `load`
+    Load,
+    /// `store`
+    Store,
+    /// `fetch_add`
+    FetchAdd,
+}
+
+/// Type of the atomic the operation is performed on.
+#[derive(Debug, Clone, Copy, PartialEq, Eq)]
+pub enum Ty {
+    /// `AtomicUsize`
+    Usize,
+    /// `AtomicBool`
+    Bool,
+}
+
+/// One atomic operation as seen by the shim.
+#[derive(Debug, Clone, Copy)]
+pub struct Op {
+    /// address of the atomic
+    pub addr: usize,
+    /// type of the atomic
+    pub ty: Ty,
+    /// kind of operation
+    pub kind: Kind,
+    /// ordering passed by the caller
+    pub ord: Ordering,
+    /// argument (stored value or increment; 0 for loads)
+    pub arg: usize,
+}
+
+/// Callback invoked before the operation is performed.
+pub type Before = fn(&Op);
+/// Callback invoked after the operation is performed, with its result (0 for stores).
+pub type After = fn(&Op, usize);
+
+static BEFORE: std_atomic::AtomicUsize = std_atomic::AtomicUsize::new(0);
+static AFTER: std_atomic::AtomicUsize = std_atomic::AtomicUsize::new(0);
+
+/// Registers the callbacks.
+pub fn set_hooks(before: Before, after: After) {
+    BEFORE.store(before as usize, Ordering::SeqCst);
+    AFTER.store(after as usize, Ordering::SeqCst);
+}
+
+#[inline]
+fn before(op: &Op) {
+    let f = BEFORE.load(Ordering::SeqCst);
+    if f != 0 {
+        (unsafe { std::mem::transmute::<usize, Before>(f) })(op)
+    }
+}
+
+#[inline]
+fn after(op: &Op, r: usize) {
+    let f = AFTER.load(Ordering::SeqCst);
+    if f != 0 {
+        (unsafe { std::mem::transmute::<usize, After>(f) })(op, r)
+    }
+}
+
+/// Reporting wrapper around `std::sync::atomic::AtomicUsize`.
+#[derive(Debug, Default)]
+pub struct AtomicUsize(std_atomic::AtomicUsize);
+
+impl AtomicUsize {
+    fn op(&self, kind: Kind, ord: Ordering, arg: usize) -> Op {
+        Op {
+            addr: self as *const _ as usize,
+            ty: Ty::Usize,
+            kind,
+            ord,
+            arg,
+        }
+    }
+
+    /// See `std::sync::atomic::AtomicUsize::fetch_add`.
+    pub fn fetch_add(&self, v: usize, ord: Ordering) -> usize {
+        let o = self.op(Kind::FetchAdd, ord, v);
+        before(&o);
+        let r = self.0.fetch_add(v, ord);
+        after(&o, r);
+        r
+    }
+
+    /// See `std::sync::atomic::AtomicUsize::load`.
+    pub fn load(&self, ord: Ordering) -> usize {
+        let o = self.op(Kind::Load, ord, 0);
+        before(&o);
+        let r = self.0.load(ord);
+        after(&o, r);
+        r
+    }
+
+    /// See `std::sync::atomic::AtomicUsize::store`.
+    pub fn store(&self, v: usize, ord: Ordering) {
+        let o = self.op(Kind::Store, ord, v);
+        before(&o);
+        self.0.store(v, ord);
+        after(&o, 0)
+    }
+}
+
+impl From<usize> for AtomicUsize {
+    fn from(v: usize) -> Self {
+        Self(v.into())
+    }
+}
+
+/// Reporting wrapper around `std::sync::atomic::AtomicBool`.
+#[derive(Debug, Default)]
+pub struct AtomicBool(std_atomic::AtomicBool);
+
+impl AtomicBool {
+    fn op(&self, kind: Kind, ord: Ordering, arg: usize) -> Op {
+        Op {
+            addr: self as *const _ as usize,
+            ty: Ty::Bool,
+            kind,
+            ord,
+            arg,
+        }
+    }
+
+    /// See `std::sync::atomic::AtomicBool::load`.
+    pub fn load(&self, ord: Ordering) -> bool {
+        let o = self.op(Kind::Load, ord, 0);
+        before(&o);
+        let r = self.0.load(ord);
+        after(&o, r as usize);
+        r
+    }
+
+    /// See `std::sync::atomic::AtomicBool::store`.
+    pub fn store(&self, v: bool, ord: Ordering) {
+        let o = self.op(Kind::Store, ord, v as usize);
+        before(&o);
+        self.0.store(v, ord);
+        after(&o, 0)
+    }
+}
+
+impl From<bool> for AtomicBool {
+    fn from(v: bool) -> Self {
+        Self(v.into())
+    }
+}
